@@ -41,10 +41,12 @@ def formula_for(c, refs, fail, mode, via_range, long_pad=False, style=0):
     return '=' + '+'.join(parts)
 
 
-def evaluate_graph(refs, fail, entry, mode=0, via_range=False, long_pad=False, shared=None, style=0):
+def evaluate_graph(refs, fail, entry, mode=0, via_range=False, long_pad=False, shared=None, style=0, crowd=0):
     def fn():
         L = xl.lib()
         d = {f'Sheet1!A{c}': formula_for(c, refs[c - 1], fail[c - 1], mode, via_range, long_pad, style) for c in range(1, len(refs) + 1)}
+        for k in range(crowd):      # formula cells nothing in the graph refers to (isolated nodes of the reference graph: the outcome is the same)
+            d[f'Sheet1!E{k + 1}'] = f'={k}+D{k + 1}' if k % 2 else f'={k}*2'
         t = time.process_time()
         try:
             if shared is not None and 'ev' in shared:
@@ -110,7 +112,8 @@ def graph_worker(blocks):
         refs, fail, entry, exp, val = st['refs'], st['fail'], st['entry'], st['outcome'], st['val']
         h = hash((str(refs), entry)) & 0xffff
         style = (h >> 5) % 6
-        obs = evaluate_graph(refs, fail, entry, mode=h % 2, via_range=(h >> 1) % 2 == 0, long_pad=(h >> 2) % 8 == 0, style=style)
+        crowd = 320 if (h >> 8) % 16 == 0 else 0
+        obs = evaluate_graph(refs, fail, entry, mode=h % 2, via_range=(h >> 1) % 2 == 0, long_pad=(h >> 2) % 8 == 0, style=style, crowd=crowd)
         out['n'] += 1
         out['outcomes'][exp] = out['outcomes'].get(exp, 0) + 1
         ok = outcome_ok(refs, fail, entry, exp, val, obs, style)
@@ -119,7 +122,7 @@ def graph_worker(blocks):
         if not ok:
             cyc = exp == 'cycle'
             out['dis'].append({'case': {'refs': refs, 'fail': fail, 'entry': entry,
-                                        'style': style, 'mode': h % 2, 'via_range': (h >> 1) % 2 == 0,
+                                        'style': style, 'mode': h % 2, 'via_range': (h >> 1) % 2 == 0, 'unrelated_formula_cells': crowd,
                                         'formulas': {f'A{c}': formula_for(c, refs[c - 1], fail[c - 1], h % 2, (h >> 1) % 2 == 0, False, style) for c in range(1, len(refs) + 1)}},
                                'exp': {'outcome': exp, 'val': val}, 'obs': {k: obs[k] for k in obs if k != 'abs'},
                                'features': {'expected': exp, 'observed': obs['outcome'], 'self_loop': cyc and entry in refs[entry - 1],
